@@ -289,10 +289,29 @@ func (csm *conditionalStorageMiddleware) CopyObject(ctx context.Context, srcBuck
 	}
 	defer closeReaders(readers)
 
+	// Carry over what a same-storage copy carries over: metadata and tags follow
+	// their directives, the redirect location and the storage class always come
+	// from the request.
+	putOpts := &storage.PutObjectOptions{}
+	if opts != nil {
+		putOpts.StorageClass = opts.StorageClass
+	}
 	if opts != nil && opts.ReplaceMetadata {
 		contentType = opts.ContentType
+		putOpts.Metadata = opts.Metadata
 	} else {
 		contentType = srcObject.ContentType
+		metadata := srcObject.Metadata
+		metadata.WebsiteRedirectLocation = nil
+		if opts != nil && opts.Metadata != nil {
+			metadata.WebsiteRedirectLocation = opts.Metadata.WebsiteRedirectLocation
+		}
+		putOpts.Metadata = &metadata
+	}
+	if opts != nil && opts.ReplaceTags {
+		putOpts.Tags = opts.Tags
+	} else {
+		putOpts.Tags = srcObject.Tags
 	}
 	body, err := cachedCopyBody(readers)
 	if err != nil {
@@ -300,7 +319,7 @@ func (csm *conditionalStorageMiddleware) CopyObject(ctx context.Context, srcBuck
 	}
 	defer body.Close()
 
-	putResult, err := dstStorage.PutObject(ctx, dstBucket, dstKey, contentType, body, nil, nil)
+	putResult, err := dstStorage.PutObject(ctx, dstBucket, dstKey, contentType, body, nil, putOpts)
 	if err != nil {
 		return nil, err
 	}
